@@ -1163,14 +1163,18 @@ fn get_common_decimal_type(
 ) -> Option<DataType> {
     use arrow::datatypes::DataType::*;
     match decimal_type {
-        Decimal32(_, _) => {
-            let other_decimal_type = coerce_numeric_type_to_decimal32(other_type)?;
-            get_wider_decimal_type(decimal_type, &other_decimal_type)
-        }
-        Decimal64(_, _) => {
-            let other_decimal_type = coerce_numeric_type_to_decimal64(other_type)?;
-            get_wider_decimal_type(decimal_type, &other_decimal_type)
-        }
+        Decimal32(_, _) => match coerce_numeric_type_to_decimal32(other_type) {
+            Some(other_decimal_type) => {
+                get_wider_decimal_type(decimal_type, &other_decimal_type)
+            }
+            None => get_wider_decimal_variant_for_integer(decimal_type, other_type),
+        },
+        Decimal64(_, _) => match coerce_numeric_type_to_decimal64(other_type) {
+            Some(other_decimal_type) => {
+                get_wider_decimal_type(decimal_type, &other_decimal_type)
+            }
+            None => get_wider_decimal_variant_for_integer(decimal_type, other_type),
+        },
         Decimal128(_, _) => {
             let other_decimal_type = coerce_numeric_type_to_decimal128(other_type)?;
             get_wider_decimal_type(decimal_type, &other_decimal_type)
@@ -1181,6 +1185,22 @@ fn get_common_decimal_type(
         }
         _ => None,
     }
+}
+
+/// An integer type whose values do not fit a decimal of `decimal_type`'s own
+/// variant (e.g. `Decimal32` and `Int32`): widen to `Decimal128`, keeping the
+/// decimal's scale and enough integer digits for every value of the integer
+/// type, instead of falling back to the integer type, which would drop the
+/// fractional digits.
+fn get_wider_decimal_variant_for_integer(
+    decimal_type: &DataType,
+    integer_type: &DataType,
+) -> Option<DataType> {
+    if !integer_type.is_integer() {
+        return None;
+    }
+    let integer_as_decimal = coerce_numeric_type_to_decimal128(integer_type)?;
+    get_wider_decimal_type_cross_variant(decimal_type, &integer_as_decimal)
 }
 
 /// Returns a decimal [`DataType`] variant that can store any value from either
